@@ -30,7 +30,7 @@ LEAN_TARGETS = ["Strengths.Props.C11", "Strengths.Props.C11Refine"]
 PROP_FILES = ["Strengths/Props/C11.lean", "Strengths/Props/C11Refine.lean"]
 GEN_GROUPS = ["EngineCpp", "EngineLife", "IndexPy"]
 RULE = ("scripts: 3 engines x grid/graph (60 % degenerate shapes) x 4 policies x request styles (incl. empty, 40 % with repeated times) x "
-        "all 4 accepted processing modes for every engine and space (sanitizer subset: one job per engine x space x mode first) x "
+        "networks with more directed reactions than 6 n_species and with more species than reactions x all 4 accepted processing modes for every engine and space (sanitizer subset: one job per engine x space x mode first) x "
         "coarse / fine time steps; each driven to completion with explicit samples, two output fetches with a sample in between, "
         "double finalize, then a call on the released engine; run on the plain, the assertion-hardened and (subset) the ASan/UBSan build; "
         "non-trivial when >= 2 steps were made; distinct by script")
@@ -225,7 +225,9 @@ def explore(ctx, n, n_asan, p_degenerate=0.6, tag="m", with_model=True, p_coarse
         coarse = (option != "gillespie") and rng.random() < p_coarse
         # every block of 12 jobs holds the 3 engines x 4 processing modes on one space type, two blocks both space types
         kw = {"degenerate": rng.random() < p_degenerate, "policy": lc.POLICIES[(i // 3) % 4], "mode": MODES[(i // 3 + i // 12) % 4],
-              "max_steps": 40 if option != "gillespie" else 12, "space_kind": ["grid", "graph"][(i // 12) % 2]}
+              "max_steps": 40 if option != "gillespie" else 12, "space_kind": ["grid", "graph"][(i // 12) % 2],
+              # every fifth job: 1-2 species with more directed reactions than 6 * n_species (sizes in n_reactions vs n_species vs slots)
+              "many_reactions": (i % 5 == 4)}
         jobs.append(make_job(rng, "%s%d" % (tag, i), option, coarse=coarse, dup=(rng.random() < 0.4), **kw))
     # the sanitizer subset: first one job per (engine, space, processing mode), then jobs with repeated request times, then the rest
     first, rest = {}, []
@@ -249,6 +251,12 @@ def explore(ctx, n, n_asan, p_degenerate=0.6, tag="m", with_model=True, p_coarse
         for key in ("option", "policy", "style", "space", "mode"):
             ctx.count("%s_%s" % (key, info[key]))
         ctx.count("coarse" if info.get("coarse") else "fine")
+        if info.get("many_reactions"):
+            ctx.count("many_reactions_%s_%s" % (info["option"], info["space"]))
+        if info["n_directed_reactions"] > 6 * info["nsp"]:
+            ctx.count("n_reactions_gt_6_n_species")
+        if info["nsp"] > info["n_directed_reactions"]:
+            ctx.count("n_species_gt_n_reactions")
         hashes = {}
         steps = 0
         for kind, _ in builds:
